@@ -52,6 +52,10 @@ Remove ==
     \/ \E g \in {"span", "a"} :
           /\ ts' = Norm(StripTags(ts, g, <<>>))
           /\ op' = [op |-> "strip_tags", tag |-> g]
+    \/ \E i \in 1..Len(ts) : \E g \in {"span", "a"} :
+          /\ ts[i].k = "o"
+          /\ ts' = Norm(StripSelf(ts, i, g, TRUE))
+          /\ op' = [op |-> "strip_self", i |-> i, tag |-> g, self |-> (ts[i].tag = g)]
     \/ \E i \in 1..Len(ts) :
           /\ ts[i].k \in {"o", "e"}
           /\ ts' = Norm(DeleteAt(ts, i))
@@ -105,6 +109,12 @@ NoMatchNoChange ==
 (* element, tails included                                                   *)
 RemovalKeepsOutside ==
     [][ /\ op'.op = "strip_tags" => Decode(ts') = Decode(ts)
+        /\ op'.op = "strip_self" =>
+              LET i == op'.i
+                  j == CloseOf(ts, i, 0)
+              IN IF op'.self
+                 THEN Decode(ts') = Decode(SubSeq(ts, i + 1, j - 1)) \o (IF j < Len(ts) /\ ts[j + 1].k = "t" THEN ts[j + 1].s ELSE <<>>)
+                 ELSE Decode(ts') = Decode(ts)
         /\ op'.op = "delete" =>
               LET i == op'.i
                   j == IF ts[i].k = "o" THEN CloseOf(ts, i, 0) ELSE i
